@@ -170,6 +170,18 @@ def digestPart (n : Nat) : Inp → Except Err (Option Str)
     else .ok (some s)
   | _ => .error .typeError
 
+/-- assigning to ONE hash of a digest that already holds `old` (`rec.d.md5 = x`): an accepted value replaces it; a
+    refused one leaves `old` in place when the setter checks before it assigns (regenerated
+    `Gen.digestSetterChecksFirst`) - otherwise a value that decodes but has the wrong length is stored all the same -/
+def digestAssign (n : Nat) (old : Option Str) (x : Inp) : Option Str × Option Err :=
+  match digestPart n x with
+  | .ok v => (v, none)
+  | .error e =>
+    if Gen.digestSetterChecksFirst then (old, some e)
+    else match x with
+      | .str s _ _ => if s.all (· < 128) && s.length % 2 == 0 && isHexStr s then (some s, some e) else (old, some e)
+      | _ => (old, some e)
+
 /-- `string.__new__`: bytes are decoded with surrogateescape, a str is kept, anything else goes through `str()` -/
 def strNew : Inp → Except Err Str
   | .str s _ _ => .ok s
